@@ -54,7 +54,7 @@ Print Assumptions SYS_invariant.
        validRedirectURI (in a configured root domain under every RFC 3986 reading) and carried a MAC computed
        by the PROXY, under a secret equal to the authenticator's, over that URI and a time at most 5 min old;
      - that session descends from an EARLIER code exchange at the IdP whose verified e-mail is e (C10's
-       idp_vouched: token endpoint 200 + tokens, id_token payload / userinfo e-mail verified), admitted by the
+       idp_vouched: token endpoint 200 + tokens, id_token payload / userinfo e-mail verified), let pass by the
        authenticator's own e-mail rule.
    (Composition of C01/C03/C06/C11/C13 with C07/C08/C09/C10.) *)
 Theorem SYS_identity_vouched : forall re_match re_replace lower sd t0 evs st' tr,
@@ -198,3 +198,52 @@ Theorem SYS_nonvacuous :
   wf SysEx.sd /\ wired SysEx.ex_match SysEx.sd.
 Proof. exact (conj ex_login_reaches_backend (conj ex_revocation_ends_it (conj ex_signout_ends_it (conj SysEx.wf_ex ex_wired)))). Qed.
 Print Assumptions SYS_nonvacuous.
+
+(* ADAPTER (back channel).  The proxy model's requests are url.Values.Encode texts; the authenticator model reads
+   them with its concrete ParseForm. For byte strings the round trip is the identity: the authenticator reads off the
+   proxy's redeem request exactly the client id, the client secret and the code the proxy put in, without a parse
+   error — so [creds_presented] in SYS_identity_vouched says the two services are configured with the SAME id and
+   secret, and [redeemed_code] is the code the browser presented. (The safety theorems above do not depend on this.) *)
+Theorem SYS_adapter_redeem : forall sd slug host code,
+  bytes (sd_pid sd) -> bytes (sd_psecret sd) -> bytes code -> bytes (callback_uri sd host) ->
+  let r := A.inner (rq_redeem sd slug host code) B.p_redeem in
+  B.presented_id r = (if B.is_nil (sd_pid sd) then [] else sd_pid sd) /\
+  B.presented_secret r = (if B.is_nil (sd_psecret sd) then [] else sd_psecret sd) /\
+  B.presented_code r = code /\ snd (B.compute_form r) = false.
+Proof. exact redeem_request_faithful. Qed.
+Print Assumptions SYS_adapter_redeem.
+
+Theorem SYS_adapter_credentials : forall sd slug host code,
+  bytes (sd_pid sd) -> bytes (sd_psecret sd) -> bytes code -> bytes (callback_uri sd host) ->
+  creds_presented sd slug host code -> sd_pid sd = A.d_client_id (sd_a sd) /\ sd_psecret sd = A.d_client_secret (sd_a sd).
+Proof. exact creds_presented_bytes. Qed.
+Print Assumptions SYS_adapter_credentials.
+
+(* SYS_monitor_accepts_model.  The monitor Corr_IntSystem.judge applies to the REAL services' observations —
+   [holds_gen false]: every clause that is proved above, stated on observations and on the generator's own
+   bookkeeping of lineages (identity only for an IdP-vouched, code-redeemed, gate-passed, host-bound, live
+   session; revocation / sign-out bounded by V with the in-flight-code and outage exceptions; codes only for
+   live, IdP-confirmed, unrevoked sessions and in-domain redirect URIs; session cookies only from an IdP login or
+   as a re-save; token documents only for callers with the client credentials) — accepts the observation the
+   model itself predicts ([model_msteps]: observations AND lineages read off the model's state), for EVERY
+   deployment, history, IdP script and oracle: an alarm is never an artefact of the monitor being stricter than
+   the theorems. This ([strict = false]) is the monitor the judgement uses; the two clauses [holds_gen true] adds are
+   exactly the two refuted wish-list clauses (stated by none of C01-C20: observations, not violations). *)
+Theorem SYS_monitor_accepts_model : forall re_match re_replace lower sd t0 evs,
+  wf sd -> wired re_match sd -> 0 <= P.dp_V (sd_p sd) ->
+  holds_gen re_match re_replace lower sd false (model_msteps re_match re_replace lower sd t0 evs) = true.
+Proof. exact monitor_accepts_model. Qed.
+Print Assumptions SYS_monitor_accepts_model.
+
+(* ... and it is not vacuous: at full strength it accepts the model's login / revocation / sign-out histories
+   (one of which reaches a backend) and rejects exactly the two witnesses of the refuted clauses, which the
+   proved part accepts. *)
+Theorem SYS_monitor_discriminates :
+  let ms evs := model_msteps SysEx.ex_match SysEx.ex_replace lower_ascii SysEx.sd 1000 evs in
+  let h strict evs := holds_gen SysEx.ex_match SysEx.ex_replace lower_ascii SysEx.sd strict (ms evs) in
+  h true SysEx.evs_served = true /\ h true SysEx.evs_revoked = true /\ h true SysEx.evs_signout = true /\
+  h true SysEx.evs_cross = false /\ h false SysEx.evs_cross = true /\
+  h true SysEx.evs_inflight = false /\ h false SysEx.evs_inflight = true /\
+  existsb (fun m => match ms_obs m with OP o => negb (nilb (op_seen o)) | _ => false end) (ms SysEx.evs_served) = true.
+Proof. exact monitor_discriminates. Qed.
+Print Assumptions SYS_monitor_discriminates.
